@@ -61,6 +61,9 @@ def Machine.emits (m : Machine σ ι β) : σ → List ι → List β
   | _, [] => []
   | s, o :: os => (m.step s o).2 ++ m.emits (m.step s o).1 os
 
+/-- result of a `flush_shared`: the drained buffer; an empty `Vec` is no emission -/
+def flushed (b : List Ev) : List (List Ev) := if b = [] then [] else [b]
+
 /-! ## TumblingWindow -/
 
 structure Tumbling where
@@ -82,7 +85,7 @@ def Tumbling.step (d : Int) (w : Tumbling) : Op → Tumbling × List (List Ev)
     | some st =>
       if t ≥ st + d ∧ w.buf ≠ [] then ({ start := some t, buf := [] }, [w.buf]) else (w, [])
     | none => (w, [])
-  | .flush => ({ w with buf := [] }, [w.buf])
+  | .flush => ({ w with buf := [] }, flushed w.buf)
   | .expire _ => (w, [])
 
 def tumbling (d : Int) : Machine Tumbling Op (List Ev) := { init := {}, step := Tumbling.step d }
@@ -98,7 +101,7 @@ def Count.step (n : Nat) (w : Count) : Op → Count × List (List Ev)
   | .add e =>
     let b := w.buf ++ [e]
     if b.length ≥ n then ({ buf := [] }, [b]) else ({ buf := b }, [])
-  | .flush => ({ buf := [] }, [w.buf])
+  | .flush => ({ buf := [] }, flushed w.buf)
   | _ => (w, [])
 
 def count (n : Nat) : Machine Count Op (List Ev) := { init := {}, step := Count.step n }
@@ -127,7 +130,7 @@ def Session.step (g : Int) (w : Session) : Op → Session × List (List Ev)
     match w.last with
     | some l => if now - l > g then ({}, [w.buf]) else (w, [])
     | none => (w, [])
-  | .flush => ({}, [w.buf])
+  | .flush => ({}, flushed w.buf)
 
 def session (g : Int) : Machine Session Op (List Ev) := { init := {}, step := Session.step g }
 
